@@ -3,6 +3,7 @@ package props
 import (
 	"fmt"
 	"go/ast"
+	"go/token"
 	"go/types"
 	"sort"
 	"strings"
@@ -441,6 +442,72 @@ func C11(p *ir.Program, r *report.R) {
 	// (addProposalBlockPart decodes the completed part set into it): it is nil whenever a new part set is
 	// installed, so every decode starts from a fresh value.
 	proposalBlockAndPartsChangeTogether(c)
+
+	// ---- bounds are tested without overflowing sums -----------------------------------------------------------------
+	// Sizes read from the input are 64-bit values the sender chooses. A bound of the form `a + b > limit`
+	// wraps for a near 2^64 and lets the value through (the callers then slice with it and panic); the codec
+	// tests `b > limit - a` after establishing a <= limit, or compares single values. No comparison in the
+	// codec has an operand that is the sum of two non-constant unsigned 64-bit values.
+	{
+		var bad []string
+		nCmp := 0
+		for _, f := range p.Funcs {
+			if f.Pkg == nil || ir.RelPkg(f.Pkg.Pkg) != "libs/ser" || f.Blocks == nil || strings.HasSuffix(p.Pos(f.Pos()), "_test.go") || strings.Contains(p.Pos(f.Pos()), "libs/ser/json") {
+				continue
+			}
+			ir.Instrs(f, func(in ssa.Instruction) {
+				bo, ok := in.(*ssa.BinOp)
+				if !ok {
+					return
+				}
+				switch bo.Op {
+				case token.LSS, token.GTR, token.LEQ, token.GEQ:
+				default:
+					return
+				}
+				nCmp++
+				for _, side := range []ssa.Value{bo.X, bo.Y} {
+					add, isAdd := side.(*ssa.BinOp)
+					if !isAdd || add.Op != token.ADD {
+						continue
+					}
+					bt, isB := add.Type().Underlying().(*types.Basic)
+					if !isB || !(bt.Kind() == types.Uint64 || bt.Kind() == types.Uint || bt.Kind() == types.Uintptr) {
+						continue
+					}
+					_, cx := add.X.(*ssa.Const)
+					_, cy := add.Y.(*ssa.Const)
+					if cx || cy {
+						continue
+					}
+					bad = append(bad, p.InstrPos(in)+": "+short(ir.Render(bo), 80))
+				}
+			})
+		}
+		r.Check("K6", "ser/no-overflowing-sum-in-a-bound", "-", len(bad) == 0 && nCmp >= 20, fmt.Sprintf("%d comparisons in the codec, none on the sum of two input-chosen unsigned values: %v", nCmp, bad))
+	}
+
+	// ---- intsize is the byte length of its argument --------------------------------------------------------------------
+	// intsize(i) sizes every list/string header: it counts how often i can be shifted right by 8 until it
+	// is zero (1 for i < 256, 2 for i < 65536, ...). The size bookkeeping of encbuf and the header bytes
+	// written by putint agree only with exactly that function.
+	{
+		is := p.Func("libs/ser", "intsize")
+		okShape := false
+		for _, rt := range ir.Returns(is) {
+			fs := ir.FactsAt(rt.Instr)
+			if ir.HasFact(fs, "eq((* >> 8),0)") {
+				okShape = true
+			}
+		}
+		nShift := 0
+		ir.Instrs(is, func(in ssa.Instruction) {
+			if bo, ok := in.(*ssa.BinOp); ok && bo.Op == token.SHR && ir.Render(bo.Y) == "8" {
+				nShift++
+			}
+		})
+		r.Check("K11", "ser.intsize/shift-until-zero", p.Pos(is.Pos()), okShape && nShift == 1 && len(ir.Returns(is)) == 1, "intsize returns when the value shifted right by 8 once more is zero (one return, one shift)")
+	}
 
 	// ---- one text form for signed integers --------------------------------------------------------------------------
 	// Signed integers (and the entry count of a map) travel as base-16 text: writeInt formats, decodeInt
